@@ -181,7 +181,7 @@ def run(rep, tier):
     js = []
     full = len(alphabet(False))
     red = len(alphabet(True))
-    for level, rx in ((logging.DEBUG, ".*"), (logging.WARNING, ".*"), (logging.DEBUG, r"^core\.")):
+    for level, rx in ((logging.DEBUG, ".*"), (logging.WARNING, ".*"), (logging.DEBUG, r"^core\."), (logging.INFO, "o$")):
         for lo in range(0, full, 16):
             js.append(ENUM("checks.c34", "cases", {"length": 1, "reduced": False, "level": level, "regexp": rx, "lo": lo,
                                                    "hi": lo + 16}))
